@@ -164,4 +164,8 @@ def counterMedian (mid : List Nat) : Nat := if mid.length = 0 then 0 else sum mi
 /-- per-input counter: value stored for a sample = Σ over its inputs / sample size -/
 def perIter (inputCounts : List Nat) (s : Nat) : Nat := sum inputCounts / s
 
+/-- the ascending arrangement of the recorded durations (a reference sorting algorithm; the bench
+    driver sorts with this, `Props/C05Multiset` shows every correct sort gives the same list) -/
+def ascending (samples : List Nat) : List Nat := samples.mergeSort (fun a b => decide (a ≤ b))
+
 end Stats
